@@ -55,6 +55,20 @@ class Cases:
                 c, ci, r, ri = self.G.pair(cc)
                 out.append(("wf-command", "C", c, ci))
                 out.append(("wf-response", "R:%d:%d" % (cc, 1 if ci["rsp_enc"] else 0), r, ri))
+        # parameter encryption requested for EVERY command code (also where the first parameter is not a TPM2B, so that
+        # the request is ignored): a command with a decrypt session, the response decoded with the encryption flag
+        if per_cc:
+            for cc in self.G.ccs:
+                c, ci = self.G.command(cc, nsessions=1, decrypt=True)
+                out.append(("wf-command-decrypt", "C", c, ci))
+                r, ri = self.G.response(cc, enc=True, rc=0)
+                out.append(("wf-response-encrypted", "R:%d:1" % cc, r, ri))
+        # failed responses under every kind of tag (header-only whatever the tag says)
+        if per_cc:
+            for cc in self.rng.sample(self.G.ccs, 4 * self.scale):
+                for tg in (0x8001, 0x8002, 0x00C4):
+                    r, ri = self.G.response(cc, enc=False, rc=self.rng.choice([0x101, 0x1C4, 0x922, 0x01E, 0x98E]), tag=tg)
+                    out.append(("wf-response-failed", "R:%d:0" % cc, r, ri))
         # tag TPM_ST_SESSIONS with a present but empty authorization area
         for cc in self.rng.sample(self.G.ccs, 6 * self.scale):
             c, ci = self.G.command(cc, nsessions=0, empty_area=True)
@@ -90,6 +104,15 @@ class Cases:
                 else:
                     c, ci, r, ri = self.G.pair()
                     msgs.append((c, ci, r))
+            if self.rng.random() < 0.25:
+                # the response-encryption request sits on a password authorization (alone, or next to an HMAC/policy
+                # session that does not ask for it)
+                cc0 = self.rng.choice(self.G.ccs)
+                pw = (0x40000009, self.rng.choice([0x40, 0x41, 0x60]))
+                other = (None, self.rng.choice([0, 1, 0x20]))
+                c, ci = self.G.command(cc0, sess=self.rng.choice([[pw], [other, pw], [pw, other]]))
+                r, ri = self.G.response(ci["cc"], enc=ci["rsp_enc"])
+                msgs.append((c, ci, r))
             drop_last_rsp = self.rng.random() < 0.2
             parts = []
             for i, (c, ci, r) in enumerate(msgs):
@@ -168,8 +191,28 @@ class Cases:
     def suffixes(self, base):
         label, root, b, info = base
         sfx = self.rng.choice([b"\x00", b"\xff\x01", bytes(self.rng.randrange(256) for _ in range(self.rng.randrange(1, 12))),
-                               bytes(self.rng.randrange(256) for _ in range(self.rng.choice([63, 64, 65, 100, 257, 300])))])
+                               bytes(self.rng.randrange(256) for _ in range(self.rng.choice([63, 64, 65, 100, 257, 300]))),
+                               # surplus that looks like transport framing: the mssim acknowledgement, its neighbours,
+                               # the beginning of another message
+                               b"\x00\x00\x00\x00", b"\x00\x00\x00\x00", b"\x00\x00\x00", b"\x00\x00\x00\x00\x00", b"\x00\x00\x00\x01",
+                               b"\x80\x01", b"\x80\x01\x00\x00\x00\x0a\x00\x00\x00\x00"])
         return [("suffix", root, b + sfx, {"suffix": sfx, "full": b})]
+
+    # responses whose sessions contradict the response-encryption expectation (an error in strict mode, a warning in
+    # warn mode), alone and in streams
+    def enc_mismatches(self, n=12):
+        out = []
+        for _ in range(n * self.scale):
+            cc = self.rng.choice(self.G.ccs)
+            # sessions ask for encryption although none is expected
+            r, ri = self.G.response(cc, enc=False, rc=0, sess_attrs=self.rng.choice([[0x40], [0x41], [0x01, 0x40], [0x60, 0x00]]))
+            out.append(("enc-mismatch-unexpected", "R:%d:0" % cc, r, ri))
+            c, ci = self.G.command(cc, nsessions=self.rng.choice([0, 1]), encrypt=False)
+            out.append(("enc-mismatch-stream", "S", c + r, {"msgs": [], "parts": [c, r]}))
+            # encryption expected, no session confirms it
+            r2, ri2 = self.G.response(cc, enc=True, rc=0, sess_attrs=self.rng.choice([[0x00], [0x01], [0x01, 0x20]]))
+            out.append(("enc-mismatch-missing", "R:%d:1" % cc, r2, ri2))
+        return out
 
     # G4: arbitrary
     def arbitrary(self, n=300):
